@@ -69,10 +69,13 @@ func vxCompareImages(before, after []vxKV) {
 		}
 	}
 	for _, e := range after {
+		_, ok := find(before, e.k)
 		if vxIsTrieNode(e.k) {
+			// since fix KF-C03-1 removed leaves are really removed: no trie-node record may stay behind
+			// either (the new backend's head read fetches leaves by path, so a stale leaf IS observable)
+			vx.Assert(ok, "no-trie-node-record-left-behind-by-the-reverted-block")
 			continue
 		}
-		_, ok := find(before, e.k)
 		vx.Assert(ok, "no-keyed-record-left-behind-by-the-reverted-block")
 	}
 }
